@@ -247,7 +247,9 @@ fn project_snap(cfg: &Config, snap: &Snap) -> (Value, bool) {
 
 pub fn do_deliver_msg(sys: &mut Sys, cfg: &Config, i: usize, keep: bool) -> Value {
     if i == 0 || i > sys.msgs.len() {
-        return json!({"r": "skip"});
+        // the real sender put fewer messages in flight than the schedule assumes: nothing is delivered
+        let ack = vh_common::catch(|| sys.manager.ack_tick().unwrap_or(-1)).unwrap_or(-2);
+        return json!({"r": "skip", "e": "", "ack": ack, "view": [], "w": [], "lk": true, "t": 0});
     }
     let m = if keep { sys.msgs[i - 1].clone() } else { sys.msgs.remove(i - 1) };
     let manager = &mut sys.manager;
@@ -297,7 +299,7 @@ pub fn do_client_ack(sys: &mut Sys) -> Value {
 
 pub fn do_deliver_ack(sys: &mut Sys, i: usize, keep: bool) -> Value {
     if i == 0 || i > sys.acks.len() {
-        return json!({"r": "skip"});
+        return json!({"r": "skip", "dt": sys.sender.delta_tick().unwrap_or(-1), "a": -1});
     }
     let a = if keep { sys.acks[i - 1] } else { sys.acks.remove(i - 1) };
     let sender = &mut sys.sender;
@@ -310,7 +312,12 @@ pub fn do_deliver_ack(sys: &mut Sys, i: usize, keep: bool) -> Value {
     });
     match res {
         Ok(r) => json!({"r": r, "dt": sys.sender.delta_tick().unwrap_or(-1), "a": a}),
-        Err(p) => panic_out(p),
+        Err(p) => {
+            let mut o = panic_out(p);
+            o["dt"] = json!(vh_common::catch(|| sys.sender.delta_tick().unwrap_or(-1)).unwrap_or(-2));
+            o["a"] = json!(a);
+            o
+        }
     }
 }
 
@@ -590,8 +597,49 @@ pub fn cmd_replay(_args: &[String]) -> i32 {
 
 // ------------------------------------------------------------------ direction B
 
+fn small_value(rng: &mut StdRng) -> i32 {
+    // one byte on the wire; zero is frequent (an all-zero item is invisible to the checksum)
+    if rng.gen_range(0..4) == 0 {
+        0
+    } else {
+        rng.gen_range(0..60)
+    }
+}
+
+/// A change the checksum (sum of all integers) cannot see and that keeps the wire layout: two small items
+/// of one type swap their data, or the fields of one item rotate.  Big items stay as they are.
+fn neutral_change(rng: &mut StdRng, prev: &[ItemSpec]) -> Vec<ItemSpec> {
+    let mut w: Vec<ItemSpec> = prev.to_vec();
+    let small: Vec<usize> = (0..w.len()).filter(|&k| w[k].rep == 1 && !w[k].d.is_empty()).collect();
+    let mut pairs: Vec<(usize, usize)> = Vec::new();
+    for &a in &small {
+        for &b in &small {
+            if a < b && w[a].ty == w[b].ty && w[a].d.len() == w[b].d.len() && w[a].d != w[b].d {
+                pairs.push((a, b));
+            }
+        }
+    }
+    if !pairs.is_empty() && rng.gen_bool(0.7) {
+        let (a, b) = pairs[rng.gen_range(0..pairs.len())];
+        let t = w[a].d.clone();
+        w[a].d = w[b].d.clone();
+        w[b].d = t;
+    } else {
+        let multi: Vec<usize> = small.iter().copied().filter(|&k| w[k].d.len() >= 2).collect();
+        if !multi.is_empty() {
+            let k = multi[rng.gen_range(0..multi.len())];
+            w[k].d.rotate_left(1);
+        }
+    }
+    w
+}
+
 fn random_world(rng: &mut StdRng, prev: &[ItemSpec], big_rep: usize) -> Vec<ItemSpec> {
-    // types: 1 (pre-agreed size 2), 2 (size 1), 5 (size 3), 3 (big, multi-part), UUID -1/-2 (size 1), UUID -3 (big)
+    // types: 1 (pre-agreed size 2), 2 (size 1), 5 (size 3), 6 (size 0), 3 (big, multi-part),
+    // UUID -1/-2 (size 1), UUID -3 (big)
+    if rng.gen_range(0..8) == 0 {
+        return neutral_change(rng, prev);
+    }
     let mut w: Vec<ItemSpec> = Vec::new();
     for it in prev {
         match rng.gen_range(0..10) {
@@ -599,7 +647,7 @@ fn random_world(rng: &mut StdRng, prev: &[ItemSpec], big_rep: usize) -> Vec<Item
             2 | 3 | 4 => {
                 let mut it = it.clone();
                 for x in it.d.iter_mut() {
-                    *x = rng.gen_range(0..if it.rep > 1 { 8000 } else { 100 });
+                    *x = if it.rep > 1 { rng.gen_range(0..8000) } else { small_value(rng) };
                 }
                 w.push(it);
             }
@@ -608,7 +656,8 @@ fn random_world(rng: &mut StdRng, prev: &[ItemSpec], big_rep: usize) -> Vec<Item
     }
     let n_new = rng.gen_range(0..3);
     for _ in 0..n_new {
-        let (ty, len, rep): (i32, usize, usize) = match rng.gen_range(0..12) {
+        let (ty, len, rep): (i32, usize, usize) = match rng.gen_range(0..13) {
+            12 => (6, 0, 1),
             0 | 1 => (1, 2, 1),
             2 | 3 => (2, 1, 1),
             4 => (5, 3, 1),
@@ -626,7 +675,8 @@ fn random_world(rng: &mut StdRng, prev: &[ItemSpec], big_rep: usize) -> Vec<Item
         if rep > 1 && w.iter().filter(|i| i.rep > 1).count() >= 2 {
             continue;
         }
-        let d: Vec<i32> = (0..len).map(|_| rng.gen_range(0..if rep > 1 { 8000 } else { 100 })).collect();
+        let all_zero = rng.gen_range(0..5) == 0;
+        let d: Vec<i32> = (0..len).map(|_| if all_zero { 0 } else if rep > 1 { rng.gen_range(0..8000) } else { small_value(rng) }).collect();
         w.push(ItemSpec { ty, id, rep, d });
     }
     sort_world(&mut w);
@@ -642,11 +692,12 @@ pub fn cmd_drive(args: &[String]) -> i32 {
     let mut rng = StdRng::seed_from_u64(seed);
     let (mut events, mut accepted, mut rejected, mut multi, mut maxparts, mut max_stored) = (0u64, 0u64, 0u64, 0u64, 0u64, 0usize);
     let mut unknown_ack = 0u64;
+    let mut complementary = 0u64;
     for run_no in 1..=runs {
         let mut cfg = Config::default();
         cfg.agreed.insert(1, 2);
         let big_rep = [1000usize, 1500, 2600, 5000, 7000][rng.gen_range(0..5)];
-        for (ty, rep) in [(1, 1), (2, 1), (5, 1), (3, big_rep), (-1, 1), (-2, 1), (-3, big_rep)] {
+        for (ty, rep) in [(1, 1), (2, 1), (5, 1), (6, 1), (3, big_rep), (-1, 1), (-2, 1), (-3, big_rep)] {
             cfg.reps.insert(ty, rep);
         }
         writeln!(out, "{}", json!({"e": "reset", "run": run_no, "agreed": cfg.agreed_json()})).unwrap();
@@ -666,12 +717,15 @@ pub fn cmd_drive(args: &[String]) -> i32 {
         }
         let worlds: Vec<Vec<ItemSpec>> = Vec::new();
         let mut stored_estimate = 0usize;
+        let mut comp: Option<(usize, Vec<usize>)> = None;
+        let mut neutral_next = false;
         let emit = |ev: Value, out: &mut std::io::BufWriter<std::fs::File>| {
             writeln!(out, "{}", ev).unwrap();
         };
         for tk in 0..ticks {
             vh_common::set_case(&format!("{{\"seed\":{},\"run\":{},\"tick\":{}}}", seed, run_no, tk));
-            world = random_world(&mut rng, &world, big_rep);
+            world = if neutral_next { neutral_change(&mut rng, &world) } else { random_world(&mut rng, &world, big_rep) };
+            neutral_next = false;
             let ev = do_step(&mut sys, &mut cfg, &json!({"a": "tick", "world": world_to_json(&world)}), &worlds);
             let n = ev["out"]["n"].as_u64().unwrap_or(0);
             if n > 1 {
@@ -681,6 +735,51 @@ pub fn cmd_drive(args: &[String]) -> i32 {
             events += 1;
             emit(ev, &mut out);
             let in_blackout = blackout.map(|b| tk >= b && tk < b + 115).unwrap_or(false);
+            // Complementary losses on two consecutive multi-part snapshots made against the same base: of the
+            // first only some parts arrive, of the second (whose world differs by a checksum-neutral change)
+            // exactly the other part numbers.  Nothing may be accepted from such a pair.
+            let n = n as usize;
+            let pending = comp.take();
+            let mut comp_lost: Option<Vec<usize>> = None;
+            if !in_blackout && n >= 2 && sys.msgs.len() >= n {
+                match pending {
+                    Some((n0, lost)) if n0 == n => comp_lost = Some((0..n).filter(|j| !lost.contains(j)).collect()),
+                    _ => {
+                        if rng.gen_range(0..6) == 0 {
+                            let mut lost: Vec<usize> = (0..n).filter(|_| rng.gen_bool(0.5)).collect();
+                            if lost.is_empty() {
+                                lost.push(n - 1);
+                            }
+                            if lost.len() == n {
+                                lost.remove(0);
+                            }
+                            comp = Some((n, lost.clone()));
+                            neutral_next = true;
+                            comp_lost = Some(lost);
+                        }
+                    }
+                }
+            }
+            if let Some(lost) = comp_lost {
+                while sys.msgs.len() > n {
+                    let ev = do_step(&mut sys, &mut cfg, &json!({"a": "drop_msg", "i": 1}), &worlds);
+                    events += 1;
+                    emit(ev, &mut out);
+                }
+                for j in (0..n).rev() {
+                    let step = if lost.contains(&j) { json!({"a": "drop_msg", "i": j + 1}) } else { json!({"a": "deliver_msg", "i": j + 1, "keep": false}) };
+                    let ev = do_step(&mut sys, &mut cfg, &step, &worlds);
+                    if ev["out"]["r"] == "ok" {
+                        accepted += 1;
+                    } else if ev["out"]["r"] == "err" {
+                        rejected += 1;
+                    }
+                    events += 1;
+                    emit(ev, &mut out);
+                }
+                complementary += 1;
+                continue;
+            }
             // network activity until the queues are short
             let mut guard = 0;
             while (sys.msgs.len() > 3 || (!sys.msgs.is_empty() && (in_blackout || rng.gen_bool(0.8)))) && guard < 200 {
@@ -739,6 +838,7 @@ pub fn cmd_drive(args: &[String]) -> i32 {
     out.flush().unwrap();
     println!("{}", json!({"kind": "summary", "runs": runs, "ticks_per_run": ticks, "events": events, "accepted": accepted,
         "rejected": rejected, "multi_part_ticks": multi, "max_parts": maxparts, "acks_naming_dropped_snapshots": unknown_ack,
-        "max_consecutive_accepts_without_rebase": max_stored}));
+        "max_consecutive_accepts_without_rebase": max_stored,
+        "ticks_with_complementary_part_loss": complementary}));
     0
 }
